@@ -259,15 +259,20 @@ impl<
                             .and_then(|t| {
                                 if !t.is_zero() && t.is_expired() {
                                     let cost = policy.cost(k);
-                                    policy.remove(k);
                                     self.try_remove(k, *v)
                                         .map(|maybe_sitem| {
-                                            maybe_sitem.map(|sitem| CrateItem {
-                                                val: Some(sitem.value.into_inner()),
-                                                index: sitem.key,
-                                                conflict: sitem.conflict,
-                                                cost,
-                                                exp: t,
+                                            maybe_sitem.map(|sitem| {
+                                                // un-charge only what really left the store: the
+                                                // removal is refused when the listing's conflict
+                                                // hash belongs to another key of this index
+                                                policy.remove(k);
+                                                CrateItem {
+                                                    val: Some(sitem.value.into_inner()),
+                                                    index: sitem.key,
+                                                    conflict: sitem.conflict,
+                                                    cost,
+                                                    exp: t,
+                                                }
                                             })
                                         })
                                         .ok()
@@ -296,9 +301,10 @@ impl<
                 if let Some(t) = expiration {
                     if !t.is_zero() && t.is_expired() {
                         let cost = policy.cost(k);
-                        policy.remove(k);
                         let removed_item = self.try_remove(k, *v)?;
                         if let Some(sitem) = removed_item {
+                            // un-charge only what really left the store (see try_cleanup)
+                            policy.remove(k);
                             removed_items.push(CrateItem {
                                 val: Some(sitem.value.into_inner()),
                                 index: sitem.key,
